@@ -98,6 +98,15 @@ def run(spec, R):
     token_fn = (lambda r: treegen.en_token(r, 'all-en', 'all')) if lang == 'en' else (lambda r: treegen.ja_token(r, 'all'))
     rendered_labels = {}
     deep_chain(R, lang, formats, to_string, ix, rng, token_fn)
+    plain_fn = token_fn
+
+    def token_fn(r):
+        # the command line splits a raw line at single blanks: two blanks in a row give a token whose word is empty
+        t = plain_fn(r)
+        if r.random() < 0.01:
+            t['word'] = ''
+            R.count('render:empty-word-tokens')
+        return t
     for i in range(spec['cases']):
         # sentences: one per a chosen label, licensed trees, placeholder(s)
         sents = []
@@ -160,8 +169,8 @@ def run(spec, R):
                 continue
             R.count('render:ok')
             R.hist('rendered_formats', fmt)
-            if fmt not in C07.DECODERS:
-                continue
+            if fmt not in C07.DECODERS or "('word', '')" in dump:
+                continue            # an empty word cannot be decoded from blank-separated text: rendering without an error is all that is asked
             try:
                 recs = C07.DECODERS[fmt](text, lang)
             except Exception as e:
